@@ -352,14 +352,15 @@ class Interp:
         obj = self.new_obj("list", e)
         for i in items:
             obj.store(i)
-        elem = join_all([i for i in items]) if items else Val()
-        v = Val(refs={obj.id}, tags={"kind": "list", "elem": elem, "n_items": (len(items) if not star else None)},
+        elem = join_all([i for i in items]) if items else None          # an empty literal has no element yet (its first append decides)
+        v = Val(refs={obj.id}, tags={"kind": "list", "elem": elem, "n_items": (len(items) if not star else None), "own_obj": obj.id},
                 term=mk_term("list", *[i.term for i in items]))
         if not star:
             v.items = items
-        f = elem.flat()
-        v.data, v.shp, v.ctrl = f.data, f.shp, f.ctrl
-        v.refs |= f.refs
+        if elem is not None:
+            f = elem.flat()
+            v.data, v.shp, v.ctrl = f.data, f.shp, f.ctrl
+            v.refs |= f.refs
         return v
 
     def e_Set(self, e):
@@ -823,7 +824,7 @@ class Interp:
         obj = self.new_obj("list", e)
         obj.store(v)
         out = Val(data=f.data, shp=f.shp, ctrl=f.ctrl | conds, refs=f.refs | {obj.id},
-                  tags={"kind": "list", "elem": v, "comp": True},
+                  tags={"kind": "list", "elem": v, "comp": True, "own_obj": obj.id},
                   term=mk_term("comp", v.term))
         return out
 
@@ -907,6 +908,10 @@ class Interp:
 
     def call_value(self, e, fv, args, kws):
         from .extern import call_extern, call_builtin
+        if fv.tag("partial") is not None:
+            # functools.partial(f, *a, **k)(*args, **kws) == f(*a, *args, **{**k, **kws})
+            pf, pa, pk = fv.tag("partial")
+            return self.call_value(e, pf, list(pa) + list(args), dict(pk, **kws))
         if fv.tag("repofunc"):
             return self.call_repo(fv.tag("repofunc"), e, args, kws)
         if fv.tag("boundmethod"):
